@@ -49,7 +49,13 @@ def gen_queries(chk, X, tier):
         qs.append(("outer", m))
     for m in [rng.choice([2, 3, 4, 5]), rng.randint(6, 50)] + ([rng.randint(51, 200)] if tier != "quick" else []):
         qs.append(("cond", m))
-    for alpha in [0.95, 0.5, 0.1, rng.random(), 0.0, 0.99]:
+    alphas = [0.95, 0.5, 0.1, rng.random(), 0.0, 0.99]
+    # coverage levels at which the two alpha-cuts of the narrowest prediction interval just touch (right bound at the lower level == left bound at
+    # the upper level): the narrowest interval exists there and is the single point
+    touching = [i for i in range(n // 2) if R[i] == L[n - 1 - i]]
+    for i in (rng.sample(touching, 2) if len(touching) > 2 else touching):
+        alphas.append(1 - 2 * float(g[i]))
+    for alpha in alphas:
         qs.append(("pi", alpha, True))
         qs.append(("pi", alpha, False))
     return qs
@@ -226,6 +232,11 @@ def body(chk):
     for b in range(n_boxes):
         kind = (pbx.KINDS + pbx.TOUCH)[b % (len(pbx.KINDS) + len(pbx.TOUCH))]
         X = pbx.gen_bounds(rng, 200, kind, dy=rng.random() < 0.5)
+        if b % 7 == 3:
+            # plateaus on a common lattice, as stacking binned / touching interval data gives: bounds of different levels coincide exactly
+            kind = "binned"
+            bw, w, c0 = rng.choice([20, 25, 40, 50]), rng.choice([1, 2, 3, 4]), float(rng.randint(-5, 5))
+            X = ([c0 + (k // bw) for k in range(200)], [c0 + (k // bw) + w for k in range(200)])
         p = Staircase(np.array(X[0]), np.array(X[1]))
         pis = []
         touched = None
